@@ -111,7 +111,10 @@ Sel(h, salt, m) == ((((h \div 3) % 100000) * 7919 + salt * 104729) % 1009) % m
 Mk(kd, xx0, ym, pp, rr, ic, h, wc, fc) ==
   LET sel == h \div (IF kd = "ols" THEN OThin ELSE CThin)
       f32 == IF kd = "ols" THEN Sel(h, 1, 2) = 0 ELSE sel % F32Mod = 0 /\ fc
-      lt  == IF kd = "ols" \/ pp[1] = 0 \/ rr[1] = 0 THEN 0 ELSE ((h \div 5) % 4) + 1
+      \* loose fit: where the l1 part lets the gap test stop the solver, and -- single task only, where a sweep is
+      \* cheap -- also for pure ridge / penalty 0 (there the gap equals the objective, so a correct solver runs to the
+      \* budget; a gap that is too small or negative stops it early on the slowly converging collinear designs)
+      lt  == IF kd = "ols" \/ (kd = "mtl" /\ (pp[1] = 0 \/ rr[1] = 0)) THEN 0 ELSE ((h \div 5) % 4) + 1
       pn  == Len(xx0[1])
       near == kd = "ols" /\ pn = 2 /\ Sel(h, 2, 3) = 0 /\ \A i \in 1..Len(xx0) : Abs(xx0[i][1]) <= 2
       xx  == IF near THEN NearCol(xx0) ELSE xx0
